@@ -735,6 +735,8 @@ FLOW_LENGTH_EXTENDED_SHIFT: int = 8  # the low nibble of the first length octet 
 FLOW_LENGTH_COMPACT_MAX: int = 0xF0  # Maximum length for compact encoding (240)
 FLOW_LENGTH_EXTENDED_MAX: int = 0x0FFF  # Maximum length for extended encoding (4095)
 
+RD_LENGTH: int = 8  # a flow-vpn NLRI starts with its route distinguisher (RFC 8955 section 8)
+
 decode: dict[AFI, dict[int, str]] = {AFI.ipv4: {}, AFI.ipv6: {}}
 factory: dict[AFI, dict[int, Type[IComponent]]] = {AFI.ipv4: {}, AFI.ipv6: {}}
 
@@ -921,8 +923,12 @@ class Flow(NLRI):
         bgp = self._packed
 
         # Skip RD for flow_vpn
-        if self.safi in (SAFI.flow_vpn,) and len(bgp) >= 8:
-            bgp = bgp[8:]
+        if self.safi in (SAFI.flow_vpn,):
+            if len(bgp) < RD_LENGTH:
+                # not the components of a flow without RD: reading them as such would deliver
+                # a rule the peer did not send, and an empty NLRI as one which matches everything
+                raise Notify(3, 10, 'flow-vpn NLRI of %d bytes, too short for its route distinguisher' % len(bgp))
+            bgp = bgp[RD_LENGTH:]
 
         try:
             while bgp:
